@@ -104,6 +104,83 @@ Proof.
     split; [|exact Hwr]. constructor; [unfold ordinary; auto|exact Hord].
 Qed.
 
+
+(* ---- indexer line consumer: facts about one window *)
+Definition not_nl (b : N) : bool := negb (is_nl b).
+Definition seq_line (d : list N) : list N := take_line LF (take_seq d).
+
+Lemma until_lf_no_lf : forall w, has_byte LF (until_lf w) = false.
+Proof.
+  induction w as [|x w IH]; [reflexivity|]. cbn [until_lf].
+  destruct (N.eqb x LF) eqn:Hl; [reflexivity|].
+  cbn [has_byte existsb]. rewrite N.eqb_sym, Hl. exact IH.
+Qed.
+
+Lemma until_lf_all : forall w, has_byte LF w = false -> until_lf w = w.
+Proof.
+  induction w as [|x w IH]; intros H; [reflexivity|].
+  cbn [has_byte existsb] in H. apply orb_false_iff in H. destruct H as [Hx Hw].
+  cbn [until_lf]. rewrite N.eqb_sym, Hx. f_equal. exact (IH Hw).
+Qed.
+
+Lemma until_lf_split : forall w, has_byte LF w = true ->
+  w = until_lf w ++ LF :: skipn (Datatypes.S (length (until_lf w))) w.
+Proof.
+  induction w as [|x w IH]; intros H; [discriminate|].
+  cbn [until_lf]. destruct (N.eqb x LF) eqn:Hl.
+  - apply N.eqb_eq in Hl. subst x. reflexivity.
+  - cbn [has_byte existsb] in H. rewrite N.eqb_sym, Hl in H. cbn [orb] in H.
+    cbn [app length skipn]. f_equal. exact (IH H).
+Qed.
+
+Lemma take_seq_app_nogt : forall l r, Forall (fun b => N.eqb b GT = false) l ->
+  take_seq (l ++ r) = l ++ take_seq r.
+Proof.
+  intros l r H. induction H as [|x l Hx Hl IH]; [reflexivity|].
+  cbn [app take_seq]. rewrite Hx. f_equal. exact IH.
+Qed.
+
+Lemma win_any : forall src d b, src = firstn (length src) d -> wf_seq b d ->
+  match src with x :: _ => N.eqb x GT = false | [] => True end ->
+  let l := until_lf src in
+  Forall (fun c => N.eqb c GT = false) l
+  /\ length (filter not_nl l) = length (strip_cr l)
+  /\ (l <> [] -> wf_seq false (skipn (length l) d)).
+Proof.
+  induction src as [|x s IH]; intros d b Hp Hw Hh; cbn zeta.
+  - cbn [until_lf]. split; [constructor|]. split; [reflexivity|]. intros H; congruence.
+  - destruct d as [|y d']; [discriminate|]. cbn [length firstn] in Hp.
+    injection Hp as Hxy Hp'. subst y. cbn [until_lf].
+    destruct (N.eqb x LF) eqn:Hl.
+    { split; [constructor|]. split; [reflexivity|]. intros H; congruence. }
+    cbn [wf_seq] in Hw. rewrite Hh in Hw.
+    assert (Hw' : wf_seq false d').
+    { destruct (N.eqb x CR); [exact (proj2 Hw)|]. rewrite Hl in Hw. exact Hw. }
+    assert (Hh' : match s with z :: _ => N.eqb z GT = false | [] => True end).
+    { destruct s as [|z s']; [exact I|].
+      destruct d' as [|z' d'']; [discriminate|]. cbn [length firstn] in Hp'.
+      injection Hp' as Hz _. subst z'. cbn [wf_seq] in Hw'.
+      destruct (N.eqb z GT); [discriminate|reflexivity]. }
+    destruct (IH d' false Hp' Hw' Hh') as [H1 [H2 H4]].
+    split; [constructor; assumption|]. split.
+    + cbn [filter]. unfold not_nl at 1, is_nl. rewrite Hl, orb_false_r.
+      destruct (N.eqb x CR) eqn:Hc.
+      * (* CR: the window ends here or LF follows, so nothing more on this line *)
+        assert (Hul : until_lf s = []).
+        { destruct Hw as [Hnext _].
+          destruct s as [|z s']; [reflexivity|].
+          destruct d' as [|z' d'']; [discriminate|]. cbn [length firstn] in Hp'.
+          injection Hp' as Hz _. subst z'. subst z. reflexivity. }
+        rewrite Hul. cbn [negb filter strip_cr length]. rewrite Hc. reflexivity.
+      * cbn [negb]. destruct (until_lf s) as [|z l'] eqn:Hul.
+        -- cbn [filter strip_cr length]. rewrite Hc. reflexivity.
+        -- change (strip_cr (x :: z :: l')) with (x :: strip_cr (z :: l')).
+           cbn [length]. f_equal. exact H2.
+    + intros _. cbn [length skipn].
+      destruct (until_lf s) as [|z l'] eqn:Hul; [exact Hw'|].
+      apply H4. congruence.
+Qed.
+
 Section ScanProofs.
   Context {S : Type}.
   Variable rd : reader S.
@@ -225,5 +302,72 @@ Section ScanProofs.
           cbn [length] in *. lia. }
         exists st'. rewrite E. rewrite Hd. rewrite (seq_spec_ordinary_app (x :: p) rest Hord).
         rewrite <- app_assoc. reflexivity.
+  Qed.
+
+  (* ---- indexer::consume_sequence_line *)
+  Lemma csl_eol : forall fuel st d w b, rep0 st d -> 0 < fuel ->
+    exists st', consume_sequence_line rd cap fuel st true w b = (SOk, w, b, st').
+  Proof.
+    intros fuel st d w b HR Hf. destruct fuel as [|fuel]; [lia|].
+    cbn [consume_sequence_line]. destruct d as [|x r].
+    - destruct (fill0_nil st HR) as [st1 [E1 _]]. rewrite E1. exists st1. reflexivity.
+    - destruct (fill0_cons st x r HR) as [w' [st1 [E1 _]]]. rewrite E1. cbn [orb].
+      exists st1. reflexivity.
+  Qed.
+
+  Theorem consume_sequence_line_spec : forall fuel st d b w0 b0,
+    rep0 st d -> wf_seq b d -> length d + 1 < fuel ->
+    exists st', consume_sequence_line rd cap fuel st false w0 b0
+                = (SOk, w0 + length (seq_line d), b0 + length (filter not_nl (seq_line d)), st').
+  Proof.
+    induction fuel as [|fuel IH]; intros st d b w0 b0 HR Hw Hf; [lia|].
+    cbn [consume_sequence_line]. destruct d as [|x r].
+    - destruct (fill0_nil st HR) as [st1 [E1 _]]. rewrite E1. exists st1.
+      unfold seq_line. cbn [take_seq take_line filter length]. rewrite !Nat.add_0_r. reflexivity.
+    - destruct (fill0_cons st x r HR) as [w' [st1 [E1 [Hp1 [Hf1 HR1]]]]]. rewrite E1.
+      cbn [orb]. destruct (N.eqb x GT) eqn:Hg.
+      { exists st1. unfold seq_line. cbn [take_seq]. rewrite Hg.
+        cbn [take_line filter length]. rewrite !Nat.add_0_r. reflexivity. }
+      set (src := x :: w') in *.
+      destruct (win_any src (x :: r) b Hp1 Hw Hg) as [H1 [H2 H4]].
+      assert (Hd : x :: r = src ++ skipn (length src) (x :: r)).
+      { pose proof (firstn_skipn (length src) (x :: r)) as Hx. rewrite <- Hp1 in Hx.
+        apply eq_sym. exact Hx. }
+      destruct (has_byte LF src) eqn:Hb.
+      + (* the line ends inside this window *)
+        set (l := until_lf src) in *.
+        pose proof (until_lf_split src Hb) as Hs. fold l in Hs.
+        assert (Hline : seq_line (x :: r) = l ++ [LF]).
+        { unfold seq_line. rewrite Hd. rewrite Hs at 1. rewrite <- app_assoc.
+          rewrite (take_seq_app_nogt l _ H1). cbn [app take_seq].
+          change (N.eqb LF GT) with false. cbv iota.
+          rewrite (has_byte_false_take_line LF l _ (until_lf_no_lf src)).
+          cbn [take_line]. rewrite N.eqb_refl. reflexivity. }
+        assert (HR2 : rep0 (br_consume (Datatypes.S (length l)) st1) (skipn (Datatypes.S (length l)) (x :: r))).
+        { apply br_consume_spec; [exact HR1|]. rewrite Hf1.
+          pose proof (f_equal (@length N) Hs) as Hx. rewrite app_length in Hx.
+          cbn [length] in Hx. fold src. lia. }
+        destruct (csl_eol fuel _ _ (w0 + Datatypes.S (length l)) (b0 + count_bases l) HR2)
+          as [st' E]; [cbn [length] in Hf; lia|].
+        exists st'. rewrite E. rewrite Hline. rewrite app_length. cbn [length].
+        rewrite filter_app. cbn [filter]. unfold not_nl at 2, is_nl.
+        change (N.eqb LF LF) with true. rewrite orb_true_r. cbn [negb].
+        rewrite app_nil_r. unfold count_bases. rewrite H2.
+        replace (length l + 1) with (Datatypes.S (length l)) by lia. reflexivity.
+      + (* no line feed in this window: the line continues *)
+        pose proof (until_lf_all src Hb) as Hall. rewrite Hall in H1, H2, H4.
+        set (rest := skipn (length src) (x :: r)) in *.
+        assert (Hwr : wf_seq false rest) by (apply H4; unfold src; discriminate).
+        assert (HR2 : rep0 (br_consume (length src) st1) rest).
+        { apply br_consume_spec; [exact HR1|]. rewrite Hf1. lia. }
+        destruct (IH _ rest false (w0 + length src) (b0 + count_bases src) HR2 Hwr) as [st' E].
+        { assert (length (x :: r) = length src + length rest) by (rewrite Hd at 1; apply app_length).
+          unfold src in *. cbn [length] in *. lia. }
+        exists st'. rewrite E.
+        assert (Hline : seq_line (x :: r) = src ++ seq_line rest).
+        { unfold seq_line. rewrite Hd. rewrite (take_seq_app_nogt src _ H1).
+          apply has_byte_false_take_line. exact Hb. }
+        rewrite Hline. rewrite app_length, filter_app, app_length.
+        unfold count_bases. rewrite H2. rewrite !Nat.add_assoc. reflexivity.
   Qed.
 End ScanProofs.
